@@ -626,6 +626,7 @@ type creds struct {
 	sibling                int // index into siblingCookies: another cookie sent along with the session cookie
 	ctSpelling             int // spelling of the form media type
 	bodySibling            int // index into siblingParams: another parameter in the form body next to the credential
+	sessShape              int // rejected session ids: 0 plain, 1 / 2 with a '%' that starts no valid escape
 	scheme                 int // spelling of the Basic scheme (case-insensitive per RFC 9110): Basic, basic, BASIC
 }
 
@@ -763,7 +764,8 @@ func (c creds) allHeaders() map[string]string {
 	case 1:
 		h["Cookie"] = "sess=good"
 	case 2:
-		h["Cookie"] = "sess=stale"
+		// (session ids are opaque: some carry characters that look like the start of a percent escape)
+		h["Cookie"] = "sess=" + []string{"stale", "100%", "abc%zz"}[c.sessShape]
 	}
 	if sib := siblingCookies[c.sibling]; sib != "" && c.sess != 0 {
 		if c.sibling%2 == 0 {
@@ -1134,6 +1136,9 @@ func pipeSim(r *simcore.Run) {
 		}
 		if c.sess != 0 {
 			c.sibling = []int{0, 0, 1, 2, 3, 4, 5}[s.Draw(7, "sibling-cookie")]
+		}
+		if c.sess == 2 {
+			c.sessShape = []int{0, 0, 1, 2}[s.Draw(4, "session-id-shape")]
 		}
 		path := "/svc/1"
 		if s.Draw(8, "unmatched-path") == 7 {
